@@ -22,6 +22,7 @@
        known finding. *)
 From Lhasa Require Import Base Loop Generated Header Fs FsRun Glob Reader CliExtract CliMain InputStream ListOut
   P_CliSafe P_CliOrder P_FsConfine P_CliPath P_CliConfine P_CliConfineAll P_FsLinks P_CliPathLen P_CliConfineLate.
+From Lhasa Require Import S_Capstone P_Capstone P_CapCli S_CapAny P_CapAnyRun P_CapConfine P_CapConfineEx.
 Local Open Scope N_scope.
 
 (* ---- the deferred list: longest path first ---- *)
@@ -234,6 +235,49 @@ Proof. exact P_CliConfineLate.escape_fails_both_tests. Qed.
 Example escape_archive_is_f5 : escape_archive = f5_archive.
 Proof. reflexivity. Qed.
 
+(* ---- END TO END: confinement from archive BYTES (P_CapAnyRun, P_CapConfine) ----
+   S_Capstone.desc / archive_of: tree descriptions and their serialisation (Properties_E2E);
+   S_CapAny.wf_descs_any: S_Capstone.wf_descs WITHOUT the restriction on link targets (any
+   non-empty string of at most 4095 bytes in 1..254: absolute, climbing with "..", anything);
+   names distinct inside each directory.  For every such description, `lha x /arc/a.lzh` on
+   the bytes returns; EVERY operation of the run, the creation of the deferred links at the
+   end included, resolved below the extraction directory; every symbolic link below it at the
+   end is a described link at its own path with its own target.  The hypothesis
+   no_link_through_safe of the whole-run theorem is discharged: in a tree with distinct
+   names a link is a leaf (links_are_leaves); the headers the loop presents are the members'
+   headers, parsed back from the bytes (presents_members).  The exit status is 0 or 1, not
+   always 0: a deferred link whose directory was closed read-only cannot be made
+   (exit_status_not_zero). *)
+Theorem e2e_confined : forall mktime localtime strerror uid0 tnow mt ds,
+  wf_descs_any uid0 ds -> N.of_nat (2 * dsizes ds) < 2 ^ 40 ->
+  exists r, cli_run mktime localtime strerror uid0 tnow mt argv_x (archive_of ds) [] [] = Ok r /\
+    (cr_exit r = 0 \/ cr_exit r = 1) /\
+    (forall op, In op (fs_trace (cr_fs r)) -> below_op [bytes_root] op) /\
+    (forall suf t, Fs.node_at (fs_root (cr_fs r)) (bytes_root :: suf) = Some (Link t) -> In (suf, t) (links_of_descs ds)).
+Proof. exact P_CapConfine.e2e_confined. Qed.
+
+Theorem e2e_confined_by_size : ltac:(let t := type of P_CapConfine.e2e_confined_by_size in exact t).
+Proof. exact P_CapConfine.e2e_confined_by_size. Qed.
+Theorem e2e_confined_members : ltac:(let t := type of P_CapConfine.e2e_confined_members in exact t).
+Proof. exact P_CapConfine.e2e_confined_members. Qed.
+(* a link member is a leaf: its path is a proper prefix of no member's path *)
+Theorem links_are_leaves : ltac:(let t := type of P_CapConfine.links_are_leaves in exact t).
+Proof. exact P_CapConfine.links_are_leaves. Qed.
+Theorem no_link_through_safe_members : ltac:(let t := type of P_CapConfine.no_link_through_safe_members in exact t).
+Proof. exact P_CapConfine.no_link_through_safe_members. Qed.
+(* the headers the loop presents for archive_of ds are the members' headers *)
+Theorem presents_members : ltac:(let t := type of P_CapConfine.presents_members in exact t).
+Proof. exact P_CapConfine.presents_members. Qed.
+Theorem cli_run_any : ltac:(let t := type of P_CapAnyRun.cli_run_any in exact t).
+Proof. exact P_CapAnyRun.cli_run_any. Qed.
+(* non-vacuity: d/, d/f, d/x -> ../../y, zz -> /outside, s -> d; and exit status 1 in a read-only directory *)
+Theorem e2e_confined_example : ltac:(let t := type of P_CapConfineEx.ex3_theorem in exact t).
+Proof. exact P_CapConfineEx.ex3_theorem. Qed.
+Theorem e2e_confined_example_run : ltac:(let t := type of P_CapConfineEx.ex3_computed in exact t).
+Proof. exact P_CapConfineEx.ex3_computed. Qed.
+Theorem exit_status_not_zero : ltac:(let t := type of P_CapConfineEx.exit_status_not_zero in exact t).
+Proof. exact P_CapConfineEx.exit_status_not_zero. Qed.
+
 Print Assumptions insert_deferred_keeps_longest_first.
 Print Assumptions insert_deferred_adds_one.
 Print Assumptions confinement_refuted.
@@ -261,3 +305,13 @@ Print Assumptions safe_initial_links_refuted.
 Print Assumptions target_test_refuted.
 Print Assumptions escape_fails_both_tests.
 Print Assumptions escape_archive_is_f5.
+Print Assumptions e2e_confined.
+Print Assumptions e2e_confined_by_size.
+Print Assumptions e2e_confined_members.
+Print Assumptions links_are_leaves.
+Print Assumptions no_link_through_safe_members.
+Print Assumptions presents_members.
+Print Assumptions cli_run_any.
+Print Assumptions e2e_confined_example.
+Print Assumptions e2e_confined_example_run.
+Print Assumptions exit_status_not_zero.
